@@ -10,6 +10,7 @@
 // stdout; one request = one session on one object. See go/stdh for the
 // client. All integers little-endian.
 #include <signal.h>
+#include <sys/time.h>
 #include <stdarg.h>
 #include <stdint.h>
 #include <stdio.h>
@@ -223,6 +224,7 @@ static uint64_t fnv(const uint8_t* p, size_t n) {
 
 // ---------------------------------------------------------------- source
 
+static int g_zeros;
 // src_next_size returns how many more payload bytes the plan hands out next.
 static size_t src_next_size(void) {
   size_t left = S.paylen - S.fed;
@@ -235,6 +237,13 @@ static size_t src_next_size(void) {
       S.src_listpos++;
       break;
     default: n = left; break;
+  }
+  // an empty supply is a legal edge case (the decoder must simply suspend
+  // again), but two in a row would stall the driver: force progress.
+  if (n == 0 && left > 0) {
+    if (++g_zeros >= 2) { n = 1; g_zeros = 0; }
+  } else {
+    g_zeros = 0;
   }
   return n < left ? n : left;
 }
@@ -261,16 +270,15 @@ static void src_supply(size_t n) {
   } else {
     if (!S.srcmem) {
       S.srcmem = (uint8_t*)malloc(S.paylen ? S.paylen : 1);
+      memset(S.srcmem, 0xEE, S.paylen); // bytes beyond wi are undefined for the callee: poison them
       S.src.data.ptr = S.srcmem;
       S.src.data.len = S.paylen;
       S.src.meta.ri = S.src.meta.wi = 0;
       S.src.meta.pos = 0;
     }
     if (n) memcpy(S.srcmem + S.src.meta.wi, S.pay + S.fed, n);
-    // bytes beyond wi are undefined for the callee: poison them
     S.fed += n;
     S.src.meta.wi += n;
-    if (S.src.meta.wi < S.paylen) memset(S.srcmem + S.src.meta.wi, 0xEE, S.paylen - S.src.meta.wi);
     S.src.meta.closed = S.src_close && (S.fed == S.paylen);
   }
 }
@@ -341,14 +349,24 @@ static int dst_more(void) {
 
 typedef struct {
   wuffs_base__io_buffer b;
-  uint8_t* shadow; // copy of data[0..wi)
+  uint8_t* shadow; // copy of data[0..wi), in a persistent scratch block (no allocation per call)
 } iosnap_t;
+
+static uint8_t* g_shadow[2];
+static size_t g_shadowcap[2];
+static int g_shadowslot;
 
 static void snap_take(iosnap_t* s, const wuffs_base__io_buffer* b) {
   s->b = *b;
   s->shadow = NULL;
+  int slot = g_shadowslot++ & 1;
   if (b->data.ptr && b->meta.wi && b->meta.wi <= b->data.len) {
-    s->shadow = (uint8_t*)malloc(b->meta.wi);
+    if (g_shadowcap[slot] < b->meta.wi) {
+      free(g_shadow[slot]);
+      g_shadowcap[slot] = b->meta.wi * 2 + 4096;
+      g_shadow[slot] = (uint8_t*)malloc(g_shadowcap[slot]);
+    }
+    s->shadow = g_shadow[slot];
     memcpy(s->shadow, b->data.ptr, b->meta.wi);
   }
 }
@@ -371,7 +389,6 @@ static void snap_check(iosnap_t* s, const wuffs_base__io_buffer* b, int is_src, 
   }
   if (s->shadow && b->data.ptr == s->b.data.ptr && memcmp(s->shadow, b->data.ptr, s->b.meta.wi) != 0)
     violation("%s: bytes in data[0..wi_before) were modified by the call", what);
-  free(s->shadow);
   s->shadow = NULL;
 }
 
@@ -385,9 +402,15 @@ static void status_check(wuffs_base__status st) {
 // ---------------------------------------------------------------- pure probes (C10 dynamic clause)
 
 static uint32_t g_npure;
+static uint64_t g_probe_bytes;
 static void pure_probe(void) {
   if (!S.pure_probe || !S.obj) return;
-  uint8_t* copy = (uint8_t*)malloc(S.objsz);
+  // each probe copies and compares the whole object: bound the bytes moved per request
+  if (g_probe_bytes + 2 * (uint64_t)S.objsz > (96ull << 20)) return;
+  g_probe_bytes += 2 * (uint64_t)S.objsz;
+  static uint8_t* copy;
+  static size_t copycap;
+  if (copycap < S.objsz) { free(copy); copycap = S.objsz; copy = (uint8_t*)malloc(copycap); }
   memcpy(copy, S.obj, S.objsz);
   wuffs_base__io_buffer src0 = S.src, dst0 = S.dst;
   switch (S.k->iface) {
@@ -443,7 +466,6 @@ static void pure_probe(void) {
   if (memcmp(copy, S.obj, S.objsz) != 0) violation("a pure method modified the receiver (%s)", S.k->name);
   if (memcmp(&src0, &S.src, sizeof src0) != 0 || memcmp(&dst0, &S.dst, sizeof dst0) != 0)
     violation("a pure method modified buffer metadata (%s)", S.k->name);
-  free(copy);
 }
 
 // ---------------------------------------------------------------- op: INIT
@@ -494,6 +516,24 @@ static void work_setup(uint64_t wmin, uint64_t wmax) {
   S.work.len = (size_t)n;
 }
 
+// work_regrow: lzma, lzip and xz only know their history size (and with it
+// workbuf_len) after the stream header has been parsed, so a driver has to ask
+// again before each call and grow the buffer, keeping its contents.
+static int work_regrow(uint64_t wmin) {
+  uint64_t want = wmin;
+  if (S.work_mode == 2) want = wmin ? wmin - 1 : 0;
+  if (S.work_mode == 3 || want <= S.work.len) return 1;
+  if (want > (1ull << 28)) return 0;
+  uint8_t* nm = (uint8_t*)malloc((size_t)want);
+  if (S.work.len) memcpy(nm, S.workmem, S.work.len);
+  fill_mem(nm + S.work.len, (size_t)want - S.work.len, S.work_fill);
+  free(S.workmem);
+  S.workmem = nm;
+  S.work.ptr = nm;
+  S.work.len = (size_t)want;
+  return 1;
+}
+
 // ---------------------------------------------------------------- drive: io_transformer
 
 static void call_record(const char* method, wuffs_base__status st, size_t sri0, size_t swi0, int scl0, size_t dri0, size_t dwi0) {
@@ -521,6 +561,19 @@ static void summary(const char* final_status, int gaveup) {
   rec_end();
 }
 
+// Bounded work: every call must consume, produce, or be answered by new
+// supply, so the number of calls is bounded by a small multiple of the bytes
+// supplied plus the destination windows handed out.
+static uint32_t g_nwindows;
+static int work_exceeded(void) {
+  uint64_t bound = 8ull * ((uint64_t)S.fed + g_nwindows + 1) + 4096;
+  if ((uint64_t)S.ncalls > bound) {
+    violation("unbounded work: %u calls after supplying %zu source bytes and %u destination windows", S.ncalls, S.fed, g_nwindows);
+    return 1;
+  }
+  return 0;
+}
+
 static void drive_iot(uint32_t maxcalls) {
   wuffs_base__io_transformer* t = (wuffs_base__io_transformer*)S.iface;
   wuffs_base__range_ii_u64 wl = wuffs_base__io_transformer__workbuf_len(t);
@@ -536,7 +589,10 @@ static void drive_iot(uint32_t maxcalls) {
   int gaveup = 0;
   int stuck = 0;
   while (1) {
-    if (S.ncalls >= maxcalls) { gaveup = 1; violation("unbounded work: more than %u calls for %zu source bytes", maxcalls, S.paylen); break; }
+    if (S.ncalls >= maxcalls) { gaveup = 1; break; }
+    if (work_exceeded()) { gaveup = 1; break; }
+    wl = wuffs_base__io_transformer__workbuf_len(t);
+    if (!work_regrow(wl.min_incl)) { final = "@stdh: work buffer too large for the harness"; gaveup = 1; break; }
     iosnap_t ss, ds;
     snap_take(&ss, &S.src);
     snap_take(&ds, &S.dst);
@@ -563,6 +619,7 @@ static void drive_iot(uint32_t maxcalls) {
       if (dwi0 == dri0 && S.dst.meta.wi == dwi0 && (S.dst.data.len - dwi0) >= 65536 && dwi0 == 0)
         violation("$short write with no byte written into an empty destination of %zu bytes", S.dst.data.len);
       if (!dst_more()) { final = st.repr; break; }
+      g_nwindows++;
       continue;
     }
     if (wuffs_base__status__is_suspension(&st)) {
@@ -598,7 +655,7 @@ static void drive_img(uint32_t maxcalls) {
   memset(&S.dst, 0, sizeof S.dst);
   // ---- DIC
   while (1) {
-    if (S.ncalls >= maxcalls) { gaveup = 1; violation("unbounded work in decode_image_config"); goto done; }
+    if (S.ncalls >= maxcalls || work_exceeded()) { gaveup = 1; goto done; }
     iosnap_t ss; snap_take(&ss, &S.src);
     size_t sri0 = S.src.meta.ri, swi0 = S.src.meta.wi; int scl0 = S.src.meta.closed;
     pure_probe();
@@ -650,7 +707,7 @@ static void drive_img(uint32_t maxcalls) {
       wuffs_base__frame_config fc;
       memset(&fc, 0, sizeof fc);
       while (1) {
-        if (S.ncalls >= maxcalls) { gaveup = 1; violation("unbounded work in decode_frame_config"); free(pix); goto done; }
+        if (S.ncalls >= maxcalls || work_exceeded()) { gaveup = 1; free(pix); goto done; }
         iosnap_t ss; snap_take(&ss, &S.src);
         size_t sri0 = S.src.meta.ri, swi0 = S.src.meta.wi; int scl0 = S.src.meta.closed;
         pure_probe();
@@ -683,7 +740,7 @@ static void drive_img(uint32_t maxcalls) {
       resp_u32(wuffs_base__frame_config__background_color(&fc));
       rec_end();
       while (1) {
-        if (S.ncalls >= maxcalls) { gaveup = 1; violation("unbounded work in decode_frame"); free(pix); goto done; }
+        if (S.ncalls >= maxcalls || work_exceeded()) { gaveup = 1; free(pix); goto done; }
         iosnap_t ss; snap_take(&ss, &S.src);
         size_t sri0 = S.src.meta.ri, swi0 = S.src.meta.wi; int scl0 = S.src.meta.closed;
         pure_probe();
@@ -739,7 +796,7 @@ static void drive_tok(uint32_t maxcalls) {
   int gaveup = 0;
   uint64_t covered = 0;
   // accumulated, canonicalised token stream: merge adjacent tokens of one chain with identical value
-  uint64_t lastval = 0; int have = 0; int lastcont = 0; uint64_t lastlen = 0;
+  uint64_t lastval = 0; int have = 0; int lastcont = 0; uint64_t lastlen = 0; uint64_t lastpos = 0;
   rec_begin('T');
   size_t trec = g_recstart;
   (void)trec;
@@ -747,7 +804,7 @@ static void drive_tok(uint32_t maxcalls) {
   size_t cntpos = g_resplen;
   resp_u32(0);
   while (1) {
-    if (S.ncalls >= maxcalls) { gaveup = 1; break; }
+    if (S.ncalls >= maxcalls || work_exceeded()) { gaveup = 1; break; }
     wuffs_base__token* tm = (wuffs_base__token*)malloc(cap * sizeof(wuffs_base__token));
     wuffs_base__token_buffer tb;
     tb.data.ptr = tm; tb.data.len = cap;
@@ -767,12 +824,19 @@ static void drive_tok(uint32_t maxcalls) {
       uint64_t len = r & 0xFFFF;
       uint64_t val = r >> 17;
       int cont = (int)((r >> 16) & 1);
+      uint64_t tpos = covered;
       covered += len;
-      if (have && lastcont && lastval == val) {
+      // How the bytes are partitioned into tokens depends on the buffers (a
+      // long string or a run of white space may be cut anywhere), so the
+      // stream is canonicalised: filler tokens (base VBC 0: "can generally be
+      // ignored other than accumulating their length") only advance the
+      // position, and adjacent tokens of one chain with the same value merge.
+      if ((r >> 63) == 0 && ((r >> 42) & 0x1FFFFF) == 0 && ((r >> 38) & 0xF) == 0) continue;
+      if (have && lastcont && lastval == val && lastpos + lastlen == tpos) {
         lastlen += len; lastcont = cont;
       } else {
-        if (have) { resp_u64(lastval); resp_u64(lastlen); resp_u8((uint8_t)lastcont); ntok++; }
-        lastval = val; lastlen = len; lastcont = cont; have = 1;
+        if (have) { resp_u64(lastval); resp_u64(lastlen); resp_u8((uint8_t)lastcont); resp_u64(lastpos); ntok++; }
+        lastval = val; lastlen = len; lastcont = cont; lastpos = tpos; have = 1;
       }
     }
     int wrote = tb.meta.wi != 0;
@@ -786,6 +850,7 @@ static void drive_tok(uint32_t maxcalls) {
     }
     if (st.repr == wuffs_base__suspension__short_write) {
       S.nsusp_w++;
+      g_nwindows++;
       if (!wrote && cap >= 4096) violation("$short write with no token written into an empty token buffer of %zu", cap);
       if (!wrote && S.src.meta.ri == sri0) { cap *= 2; if (cap > (1u << 16)) { final = st.repr; gaveup = 1; break; } }
       continue;
@@ -794,7 +859,7 @@ static void drive_tok(uint32_t maxcalls) {
     final = st.repr;
     break;
   }
-  if (have) { resp_u64(lastval); resp_u64(lastlen); resp_u8((uint8_t)lastcont); ntok++; }
+  if (have) { resp_u64(lastval); resp_u64(lastlen); resp_u8((uint8_t)lastcont); resp_u64(lastpos); ntok++; }
   g_resp[cntpos] = (uint8_t)ntok; g_resp[cntpos + 1] = (uint8_t)(ntok >> 8); g_resp[cntpos + 2] = (uint8_t)(ntok >> 16); g_resp[cntpos + 3] = (uint8_t)(ntok >> 24);
   resp_u64(covered);
   rec_end();
@@ -815,10 +880,8 @@ static void drive_hash(void) {
   uint64_t r64 = 0; uint32_t r32 = 0; wuffs_base__bitvec256 r256; memset(&r256, 0, sizeof r256);
   uint8_t usecombined = S.tok_cap & 1; // last piece goes through update_uNN
   while (1) {
-    size_t left = S.paylen - off;
-    size_t n;
-    if (S.src_mode == 1) n = S.src_chunk; else if (S.src_mode == 2 && S.src_nlist) n = S.src_list[S.src_listpos++ % S.src_nlist]; else n = left;
-    if (n > left) n = left;
+    S.fed = off;
+    size_t n = src_next_size();
     int last = (off + n == S.paylen);
     size_t mis = (size_t)(iter * 7 + 3) & 15;
     uint8_t* m = (uint8_t*)malloc(mis + n ? mis + n : 1);
@@ -997,6 +1060,15 @@ static void on_alarm(int sig) {
   _exit(97);
 }
 
+// The alarm counts CPU time of this process (ITIMER_PROF), not wall time, so a
+// loaded machine cannot turn slowness into a "hang".
+static void cpu_alarm(unsigned sec) {
+  struct itimerval it;
+  memset(&it, 0, sizeof it);
+  it.it_value.tv_sec = sec;
+  setitimer(ITIMER_PROF, &it, NULL);
+}
+
 static int read_full(int fd, void* p, size_t n) {
   uint8_t* b = (uint8_t*)p;
   while (n) {
@@ -1017,7 +1089,7 @@ static int write_full(int fd, const void* p, size_t n) {
 }
 
 static void handle_request(void) {
-  g_resplen = 0; g_nviol = 0; g_npure = 0; g_reqpos = 0; g_reqbad = 0; g_hrl = 0;
+  g_resplen = 0; g_nviol = 0; g_npure = 0; g_nwindows = 0; g_zeros = 0; g_probe_bytes = 0; g_reqpos = 0; g_reqbad = 0; g_hrl = 0;
   memset(&S, 0, sizeof S);
   uint8_t kind = rq_u8();
   uint32_t alarm_s = rq_u32();
@@ -1032,7 +1104,7 @@ static void handle_request(void) {
   S.src_exact = 1;
   S.src_close = 1;
   S.dst_cap = 1 << 20;
-  alarm(alarm_s ? alarm_s : 30);
+  cpu_alarm(alarm_s ? alarm_s : 30);
   while (g_reqpos < g_reqlen && !g_reqbad) {
     uint8_t op = rq_u8();
     switch (op) {
@@ -1110,7 +1182,7 @@ static void handle_request(void) {
       default: violation("bad op %d", op); g_reqbad = 1; break;
     }
   }
-  alarm(0);
+  cpu_alarm(0);
   rec_begin('E');
   resp_u32((uint32_t)g_nviol);
   rec_end();
@@ -1126,7 +1198,7 @@ int main(int argc, char** argv) {
            (int)wuffs_base__cpu_arch__have_x86_avx2(), (int)wuffs_base__cpu_arch__have_x86_bmi2());
     return 0;
   }
-  signal(SIGALRM, on_alarm);
+  signal(SIGPROF, on_alarm);
   while (1) {
     uint8_t hdr[4];
     if (!read_full(0, hdr, 4)) return 0;
